@@ -298,7 +298,8 @@ Section LoopFacts.
     intros s' Hr Hn Hlt. cbn [init iter] in Hlt. constructor; assumption.
   Qed.
 
-  (* ---- zero residual.  With the patch ([fixed = true]) the iteration that sees r_n == 0 ends the loop with Ftol *)
+  (* ---- zero residual.  With the disjunct [r_n == 0 ||] of optim.hpp:147 ([fixed = true], the code since 16638da) the
+     iteration that sees r_n == 0 ends the loop with Ftol *)
   Theorem zero_residual_stops_fixed : fixed = true ->
     forall (s : state), st s = None -> o_rn_zero (orc (iter s)) = true ->
     st (step (orc (iter s)) s) = Some Ftol /\ cbs (step (orc (iter s)) s) = (o_xp (orc (iter s)), o_cost_new (orc (iter s))) :: cbs s.
@@ -307,6 +308,28 @@ Section LoopFacts.
     destruct (step_cases oc s) as [(Ha & _ & _ & Hs & Hc & _)|(Ha & _)].
     - split; [|exact Hc]. rewrite Hs. unfold C09_Minimize.conv_test. rewrite Hf, Hz. reflexivity.
     - cbv zeta in Ha. unfold accept in Ha. rewrite Hz in Ha. discriminate Ha.
+  Qed.
+
+  (* run level: an iteration that sees r_n == 0 is the LAST iteration of the run and the run reports Ftol, whatever the
+     tolerances and the strategy -- the spin of the former finding C09-zero-residual-nan (zero_residual_spin_refuted
+     below, [fixed = false]) cannot happen: no iteration is ever executed after one with a zero residual *)
+  Definition zero_inv (s : state) : Prop :=
+    forall i, (i < iter s)%nat -> o_rn_zero (orc i) = true -> iter s = Datatypes.S i /\ st s = Some Ftol.
+
+  Theorem zero_residual_is_last : fixed = true -> forall x0 c0 s0,
+    let r := run x0 c0 s0 in
+    forall i, (i < result_iter r)%nat -> o_rn_zero (orc i) = true ->
+      result_iter r = Datatypes.S i /\ result_status r = Ftol.
+  Proof.
+    intros Hf x0 c0 s0 r.
+    assert (H : zero_inv r).
+    { unfold r, C09_Minimize.run. apply (loop_invariant zero_inv).
+      - intros s Hs Hn i Hi Hz. rewrite step_iter in Hi |- *.
+        destruct (Nat.eq_dec i (iter s)) as [->|Hne].
+        + split; [reflexivity|]. exact (proj1 (zero_residual_stops_fixed Hf s Hn Hz)).
+        + assert (Hlt : (i < iter s)%nat) by lia. destruct (Hs i Hlt Hz) as (_ & Hst). congruence.
+      - intros i Hi. cbn [init iter] in Hi. lia. }
+    intros i Hi Hz. destruct (H i Hi Hz) as (H1 & H2). unfold result_iter, result_status. rewrite H2. auto.
   Qed.
 
   (* ---- strategy state: any invariant of step_and_update holds for every Delta handed to the solver and for
@@ -503,14 +526,14 @@ Proof.
   intros H. discriminate H.
 Qed.
 Example ex_run :
-  let r := replay_ceres ex_opts false [ex_o0; ex_o1; ex_o2] 4 ceres_init in
+  let r := replay_ceres ex_opts code_now [ex_o0; ex_o1; ex_o2] 4 ceres_init in
   result_status r = Ptol /\ result_iter r = 3%nat /\ cbs r = [(3%Z, 1); (1%Z, 1); (0%Z, 4)] /\
   map e_stepped (evs r) = [true; false; true] /\ map e_take (evs r) = [false; false; true].
 Proof. vm_compute. repeat split; reflexivity. Qed.
 
 (* max_iter = 0: only the initial callback, MaxIters, zero iterations *)
 Example ex_maxiter0 :
-  let r := replay_ceres {| ptol := 0; ftol := 0; max_iter := 0 |} false [] 4 ceres_init in
+  let r := replay_ceres {| ptol := 0; ftol := 0; max_iter := 0 |} code_now [] 4 ceres_init in
   result_status r = MaxIters /\ result_iter r = 0%nat /\ cbs r = [(0%Z, 4)].
 Proof. vm_compute. repeat split; reflexivity. Qed.
 
@@ -518,13 +541,27 @@ Proof. vm_compute. repeat split; reflexivity. Qed.
 Theorem cost_monotone_without_contract_refuted :
   exists (sc : script) (oc : oracle Z),
     exact_oracle 1 oc /\
-    ~ mono (cbs (run scripted ex_opts false (orc_of_list [oc]) 0%Z 1 sc)).
+    ~ mono (cbs (run scripted ex_opts code_now (orc_of_list [oc]) 0%Z 1 sc)).
 Proof.
   exists [(true, 1)], ex_o1. split; [exact ex_exact_1|].
   vm_compute. intros [H _]. apply H. reflexivity.
 Qed.
 
-(* ---- known finding C09-zero-residual-nan, model side.  The code as it is ([fixed = false]) with ptol = 0: once the
+(* ---- the code that exists ([fixed := code_now]): instances of the two zero-residual theorems without the flag *)
+Theorem zero_residual_stops : forall {S X} (strat : strategy S) opts (orc : nat -> oracle X) (s : state S X),
+  st s = None -> o_rn_zero (orc (iter s)) = true ->
+  st (step strat opts code_now (orc (iter s)) s) = Some Ftol /\
+  cbs (step strat opts code_now (orc (iter s)) s) = (o_xp (orc (iter s)), o_cost_new (orc (iter s))) :: cbs s.
+Proof. intros S X strat opts orc. exact (zero_residual_stops_fixed strat opts code_now orc eq_refl). Qed.
+
+Theorem zero_residual_ends_run : forall {S X} (strat : strategy S) opts (orc : nat -> oracle X) x0 c0 s0,
+  let r := run strat opts code_now orc x0 c0 s0 in
+  forall i, (i < result_iter r)%nat -> o_rn_zero (orc i) = true ->
+    result_iter r = Datatypes.S i /\ result_status r = Ftol.
+Proof. intros S X strat opts orc. exact (zero_residual_is_last strat opts code_now orc eq_refl). Qed.
+
+(* ---- HISTORICAL: finding C09-zero-residual-nan (fixed in /repo by 16638da), model side.  The code BEFORE the fix
+   ([fixed = false]) with ptol = 0: once the
    residual is exactly zero no convergence test can fire (actu_red, pred_red, rho are 0/0 = NaN), every iteration
    "takes" the zero step through the r_n == 0 branch and the strategy, seeing rho = NaN, shrinks Delta every time.
    After 46 iterations Delta is below 2^-1024, where lambda = 1/Delta overflows binary64 -- in the real code the solver
@@ -545,8 +582,9 @@ Theorem zero_residual_spin_refuted :
   existsb (fun e => e_stepped e && Qltb (e_delta e) lambda_overflow_radius) (evs r) = true.
 Proof. vm_compute. repeat split; reflexivity. Qed.
 
-(* the same history on the patched code stops after one iteration with Ftol *)
-Example zero_residual_fixed_example :
-  let r := run ceres spin_opts true (fun _ => spin_oracle) 0%Z 0 ceres_init in
+(* the same history on the code that exists stops after one iteration with Ftol (non-vacuity of zero_residual_stops /
+   zero_residual_ends_run: i = 0) *)
+Example zero_residual_now_example :
+  let r := run ceres spin_opts code_now (fun _ => spin_oracle) 0%Z 0 ceres_init in
   result_status r = Ftol /\ result_iter r = 1%nat /\ length (cbs r) = 2%nat.
 Proof. vm_compute. repeat split; reflexivity. Qed.
